@@ -560,6 +560,102 @@ func muxRoutes(fact string, props []string, rel, recv, fn string) {
 	emitPairList(fact, props, pairs)
 }
 
+// mapLiteral: `var <name> = map[string]string{ "k": "v", … }` at package level, sorted by key
+func mapLiteral(fact string, props []string, rel, name string) {
+	f := parse(rel)
+	if f == nil {
+		fail(fact, props, rel+" does not parse")
+		return
+	}
+	for _, d := range f.Decls {
+		gd, ok := d.(*ast.GenDecl)
+		if !ok {
+			continue
+		}
+		for _, sp := range gd.Specs {
+			vs, ok := sp.(*ast.ValueSpec)
+			if !ok || len(vs.Names) != 1 || vs.Names[0].Name != name || len(vs.Values) != 1 {
+				continue
+			}
+			cl, ok := vs.Values[0].(*ast.CompositeLit)
+			if !ok {
+				continue
+			}
+			var pairs [][2]string
+			for _, e := range cl.Elts {
+				kv, ok := e.(*ast.KeyValueExpr)
+				if !ok {
+					fail(fact, props, "non key-value element in "+name)
+					return
+				}
+				k, ok1 := kv.Key.(*ast.BasicLit)
+				v, ok2 := kv.Value.(*ast.BasicLit)
+				if !ok1 || !ok2 {
+					fail(fact, props, "non-literal entry in "+name)
+					return
+				}
+				pairs = append(pairs, [2]string{unq(k.Value), unq(v.Value)})
+			}
+			sort.Slice(pairs, func(i, j int) bool { return pairs[i][0] < pairs[j][0] })
+			emitPairList(fact, props, pairs)
+			return
+		}
+	}
+	fail(fact, props, name+" not found in "+rel)
+}
+
+// headerDeletes: inside the function literal assigned to `ModifyResponse`, every `<x>.Header.Del(<arg>)`:
+// a literal argument is reported verbatim, a deletion inside `for key := range <M>` as "range:<M>"
+func headerDeletes(fact string, props []string, rel string) {
+	f := parse(rel)
+	if f == nil {
+		fail(fact, props, rel+" does not parse")
+		return
+	}
+	var lit *ast.FuncLit
+	ast.Inspect(f, func(n ast.Node) bool {
+		kv, ok := n.(*ast.KeyValueExpr)
+		if ok {
+			if id, ok := kv.Key.(*ast.Ident); ok && id.Name == "ModifyResponse" {
+				if fl, ok := kv.Value.(*ast.FuncLit); ok {
+					lit = fl
+				}
+			}
+		}
+		return true
+	})
+	if lit == nil {
+		fail(fact, props, "ModifyResponse function literal not found in "+rel)
+		return
+	}
+	var out []string
+	var walk func(n ast.Node, rangeOf string)
+	walk = func(n ast.Node, rangeOf string) {
+		ast.Inspect(n, func(m ast.Node) bool {
+			switch x := m.(type) {
+			case *ast.RangeStmt:
+				if x != n {
+					walk(x.Body, exprString(x.X))
+					return false
+				}
+			case *ast.CallExpr:
+				if se, ok := x.Fun.(*ast.SelectorExpr); ok && se.Sel.Name == "Del" && len(x.Args) == 1 {
+					if bl, ok := x.Args[0].(*ast.BasicLit); ok {
+						out = append(out, unq(bl.Value))
+					} else if rangeOf != "" {
+						out = append(out, "range:"+rangeOf)
+					} else {
+						out = append(out, "expr:"+exprString(x.Args[0]))
+					}
+				}
+			}
+			return true
+		})
+	}
+	walk(lit.Body, "")
+	emitStrList(fact, props, out)
+}
+
 func unq(s string) string {
 	u, err := strconv.Unquote(s)
 	if err != nil {
